@@ -63,6 +63,12 @@ CHECKS = {
             "Malformed requests (36 shapes x 8 sequence-number shapes, and all ordered pairs) each get exactly one exception response bearing their own sequence number.",
             "deterministic default schedule (thread interleavings are C13's subject); bounded stream length",
             "E1+E3+E5", "DESIGN.md#c08"),
+    "C01": ("exploration",
+            "exhaustive enumeration of call-tree programs (all tree shapes x node/edge labellings up to a node bound) and of argument/result shape chains, each executed on a real Connection pair and on a single-process twin",
+            "Every program with <= 4 (quick) / 5 (thorough) nodes - which peer runs each node, raise/return at each node, sync / caught / async invocation on each edge - and every "
+            "(argument shape, result shape, passing mode, chain depth 1..3) case is run through rpyc and locally; root outcome, ordered invocation log (each node exactly once), callee view and caller objects afterwards must agree.",
+            "deterministic default schedule; families A (control) and B (data) are exhaustive within their bounds, their product is not enumerated",
+            "E1+E3", "DESIGN.md#c01"),
 }
 
 NOT_APPLICABLE = {}
